@@ -201,6 +201,8 @@ def run(ctx):
     c02.run_r6(ctx, r6)
     # ... in reads of the size the caller configured (the setter stores its parameter, the library installs nothing else): C02-R9
     c02.run_r9(ctx, r6)
+    # ... and a refill (append, realign, shrink) leaves position, mark and the window's bytes where they were: C02-R2
+    c02.run_r2(ctx, r6)
 
     ctx.extra["exhaustive"] = True
     ctx.assume("DeferredReader::request_byte_at_offset returns the byte at that offset or None at the end of the available data (C02)")
